@@ -98,6 +98,10 @@ def expectedAt (m : Sent) (n : Nat) (handed : List Nat) (i : Nat) : List Deliver
   if (List.range n).all (fun j => j = i || handed.contains j) && !handed.contains i && i < n
   then [m.delivery] else []
 
+/-- the TYPE number of the outer TLV of a packet — in whatever form it is written (`fd 00 05` is an Interest as
+    much as `05` is; until round 13 the rule looked at the first byte) -/
+def outerType (w : Bytes) : Option Nat := (decTL w).map (·.1)
+
 /-- Dispatch rule of the forwarder (which forwarding threads must receive a delivered packet):
     an Interest goes to the thread of its name (`hn`), a Data whose PIT token is one of this
     forwarder's (6 bytes: thread id, entry id) to that thread, any other Data to the thread of every
@@ -105,7 +109,7 @@ def expectedAt (m : Sent) (n : Nat) (handed : List Nat) (i : Nat) : List Deliver
     means: once per destination thread, to no other thread, never twice to the same thread; with a
     single thread that is exactly one delivery. -/
 def destThreads (nThreads : Nat) (m : Sent) (hn : Nat) (hp : List Nat) : List Nat :=
-  if m.wire.head? = some 5 then [hn]
+  if outerType m.wire = some 5 then [hn]
   else if m.token.length = 6 then
     (if beDec (m.token.take 2) < nThreads then [beDec (m.token.take 2)] else [])
   else hp
